@@ -1,6 +1,7 @@
 import Ln.Basic
 import Ln.Commit
 import Pl.OneShot
+import Idn.DevsConsume
 
 /-! # C12 — property theorems (statements only; proofs live in the family libraries) -/
 
@@ -38,6 +39,36 @@ theorem commit_conserves :
     ((consume false cs).map fun p => p.2.added + p.2.changed).sum = (cs.map chgInserted).sum ∧
     ((consume false cs).map fun p => p.2.removed + p.2.changed).sum = (cs.map chgDeleted).sum :=
   @Ln.commit_conserves
+end
+
+section
+open DevsM DevsC
+
+/-- per-developer statistics (model of DevsAnalysis.Consume over any replay sequence): for every additive statistic -
+commits, added, removed, changed lines - the total over all ticks and developers is the sum of the contributions of
+exactly the counted replays -/
+theorem run_sum :
+    ∀ (f : DT → Int) (hf : Additive f) (ce : Bool) (cs : List Cin),
+    sumF f (run ce cs).ticks = ((countedFrom ce [] cs).map fun c => f (delta c)).sum :=
+  @DevsC.run_sum
+
+/-- the number of commits attributed is the number of counted replays -/
+theorem run_commits :
+    ∀ (ce : Bool) (cs : List Cin),
+    sumF (fun d => d.commits) (run ce cs).ticks = (countedFrom ce [] cs).length :=
+  @DevsC.run_commits
+
+/-- however often a merge commit is replayed, at most one of its replays is counted -/
+theorem counted_merge_once :
+    ∀ (ce : Bool) (h : Nat) (cs : List Cin) (seen : List Nat),
+    (∀ c ∈ cs, c.hash = h → 1 < c.parents) →
+    ((countedFrom ce seen cs).filter (fun c => c.hash = h)).length ≤ (if h ∈ seen then 0 else 1) :=
+  @DevsC.counted_merge_once
+
+/-- per-language figures sum to the totals in every (tick, developer) record -/
+theorem run_langs :
+    ∀ (ce : Bool) (cs : List Cin), ∀ e ∈ (run ce cs).ticks, LangOK e.2 :=
+  @DevsC.run_langs
 end
 
 end Props.C12
